@@ -4,7 +4,7 @@
 #include "vf_symreader.h"
 extern "C" { void vf_cb(int what, long a, long b, double d); }
 enum { CB_OBJ = 1, CB_ACON, CB_LCON, CB_CEXPR_BEGIN, CB_CEXPR_END, CB_COMPL, CB_LINOBJ, CB_LINCON, CB_TERM, CB_VARBND, CB_CONBND, CB_INIVAL, CB_INIDUAL, CB_COLSIZE,
-       CB_FUNC, CB_SUFFIX, CB_SUFVAL, CB_NUMBER, CB_VARREF, CB_CEXPRREF, CB_UNARY, CB_BINARY, CB_RELATIONAL, CB_CALL, CB_CALLARG, CB_END, CB_BOOL, CB_NOT };
+       CB_FUNC, CB_SUFFIX, CB_SUFVAL, CB_NUMBER, CB_VARREF, CB_CEXPRREF, CB_UNARY, CB_BINARY, CB_RELATIONAL, CB_CALL, CB_CALLARG, CB_END, CB_BOOL, CB_NOT, CB_BEGIN_ITER, CB_ARG, CB_END_ITER, CB_PL_BEGIN, CB_PL_SLOPE, CB_PL_BREAK, CB_PL_END, CB_IF, CB_BINLOGICAL };
 struct CheckH : mp::NullNLHandler<int> {
   typedef int Expr; typedef int NumericExpr; typedef int LogicalExpr; typedef int CountExpr; typedef int Reference;
   void OnHeader(const mp::NLHeader&) {}
@@ -38,6 +38,19 @@ struct CheckH : mp::NullNLHandler<int> {
   int OnRelational(mp::expr::Kind k, int a, int b) { vf_cb(CB_RELATIONAL, (long)k, a * 16 + b, 0); return 6; }
   int OnBool(bool v) { vf_cb(CB_BOOL, v, 0, 0); return 7; }
   int OnNot(int a) { vf_cb(CB_NOT, a, 0, 0); return 8; }
+  // iterated / call / piecewise-linear constructs: Begin(n), exactly n arguments, End
+  struct Args { int tag; void AddArg(int e) { vf_cb(CB_ARG, tag, e, 0); } };
+  typedef Args NumericArgHandler; typedef Args VarArgHandler; typedef Args CallArgHandler; typedef Args CountArgHandler; typedef Args LogicalArgHandler;
+  Args BeginSum(int n) { vf_cb(CB_BEGIN_ITER, 1, n, 0); return Args{1}; } int EndSum(Args) { vf_cb(CB_END_ITER, 1, 0, 0); return 9; }
+  Args BeginVarArg(mp::expr::Kind k, int n) { vf_cb(CB_BEGIN_ITER, 2, n, 0); return Args{2}; } int EndVarArg(Args) { vf_cb(CB_END_ITER, 2, 0, 0); return 10; }
+  Args BeginCall(int f, int n) { vf_cb(CB_CALL, f, n, 0); return Args{3}; } int EndCall(Args) { vf_cb(CB_END_ITER, 3, 0, 0); return 11; }
+  Args BeginCount(int n) { vf_cb(CB_BEGIN_ITER, 4, n, 0); return Args{4}; } int EndCount(Args) { vf_cb(CB_END_ITER, 4, 0, 0); return 12; }
+  Args BeginIteratedLogical(mp::expr::Kind k, int n) { vf_cb(CB_BEGIN_ITER, 5, n, 0); return Args{5}; } int EndIteratedLogical(Args) { vf_cb(CB_END_ITER, 5, 0, 0); return 13; }
+  struct PL { void AddSlope(double s) { vf_cb(CB_PL_SLOPE, 0, 0, s); } void AddBreakpoint(double b) { vf_cb(CB_PL_BREAK, 0, 0, b); } };
+  typedef PL PLTermHandler;
+  PL BeginPLTerm(int nb) { vf_cb(CB_PL_BEGIN, nb, 0, 0); return PL(); } int EndPLTerm(PL, int arg) { vf_cb(CB_PL_END, arg, 0, 0); return 14; }
+  int OnIf(int c, int t, int e) { vf_cb(CB_IF, c, t * 16 + e, 0); return 15; }
+  int OnBinaryLogical(mp::expr::Kind k, int a, int b) { vf_cb(CB_BINLOGICAL, (long)k, a * 16 + b, 0); return 16; }
   void EndInput() { vf_cb(CB_END, 0, 0, 0); }
 };
 #define W extern "C" __attribute__((noinline))
